@@ -79,10 +79,12 @@ pub fn stages(id: &str) -> Vec<Stage> {
         ],
         "C06" => vec![
             st(C06 { params: Params::conflict_heavy(), stage: "main", repeats: 4 }, 6_000, 200_000, Release),
+            st(C06 { params: Params::default().with_soft(2, 150), stage: "rich", repeats: 4 }, 4_000, 150_000, Release),
         ],
         "C07" => vec![
             st(C07 { params: Params::default(), stage: "main" }, 20_000, 800_000, Release),
             st(C07 { params: Params { max_pkgs: 20, min_pkgs: 8, ..Params::default() }, stage: "large" }, 5_000, 200_000, Release),
+            st(C07 { params: Params { min_pkgs: 100, max_pkgs: 160, max_cands: 4, max_reqs: 2, max_constrains: 1, min_root_reqs: 20, max_root_reqs: 60, ..Params::default() }, stage: "wide" }, 300, 6_000, Release),
         ],
         "C08" => vec![
             st(C08 { params: Params::conflict_heavy(), stage: "main", constructed: false }, 20_000, 800_000, Release),
@@ -97,7 +99,8 @@ pub fn stages(id: &str) -> Vec<Stage> {
             st(C10 { params: Params { min_pkgs: 2, max_pkgs: 4, max_cands: 3, max_reqs: 2, min_root_reqs: 1, max_root_reqs: 2, ..Params::conflict_heavy() }, stage: "exhaustive", exhaustive: true, max_schedules: 3000 }, 90, 3_000, Release),
         ],
         "C11" => vec![
-            st(C11 { params: Params::fanout(), stage: "main" }, 15_000, 500_000, Release),
+            st(C11 { params: Params::fanout().with_soft(2, 150), stage: "main" }, 15_000, 500_000, Release),
+            st(C11 { params: Params::wide(), stage: "wide" }, 400, 8_000, Release),
         ],
         "C12" => vec![
             st(C12 { params: Params::conflict_heavy().with_soft(2, 100), stage: "main", max_indices: 48 }, 1_500, 0, Release),
@@ -112,8 +115,9 @@ pub fn stages(id: &str) -> Vec<Stage> {
             st(C14 { params: Params::default(), stage: "conflict-free", conflict_free: true }, 15_000, 600_000, Release),
         ],
         "C15" => vec![
-            st(C15 { stage: "small", max_n: 33, all_pairs_upto: 33, sample_pairs: 0 }, 300, 6_000, Release),
-            st(C15 { stage: "large", max_n: 130, all_pairs_upto: 64, sample_pairs: 600 }, 40, 3_000, Release),
+            st(C15 { stage: "small", max_n: 33, all_pairs_upto: 33, sample_pairs: 0, extended: false }, 300, 6_000, Release),
+            st(C15 { stage: "large", max_n: 130, all_pairs_upto: 64, sample_pairs: 600, extended: false }, 40, 3_000, Release),
+            st(C15 { stage: "extended", max_n: 20, all_pairs_upto: 20, sample_pairs: 0, extended: true }, 1_000, 20_000, Release),
         ],
         "C16" => vec![
             st(C16 { params: Params::default(), stage: "main" }, 8_000, 300_000, Release),
@@ -128,7 +132,8 @@ pub fn stages(id: &str) -> Vec<Stage> {
             st(C17 { id: "C17", stage: "rust-containers", kind: "rust", max_tape: 260 }, 2_000, 40_000, Release),
         ],
         "C18" => vec![
-            st(C18 { stage: "main", max_ops: 250 }, 4_000, 150_000, Release),
+            st(C18 { stage: "main", max_ops: 250, fat: false }, 4_000, 150_000, Release),
+            st(C18 { stage: "fat", max_ops: 250, fat: true }, 3_000, 100_000, Release),
             st(C17 { id: "C18", stage: "asan", kind: "c18", max_tape: 1500 }, 0, 10_000, Release),
         ],
         "C19" => vec![
